@@ -324,7 +324,7 @@ class World:
         "NaN is excluded (cannot compare equal); no power-loss model",
     ]
     PROBES_EXPECTED = [
-        "overwrite", "overwrite-other-kind", "torn-file-load", "text-roundtrip", "dict-roundtrip", "op-constant-term",
+        "overwrite", "overwrite-other-kind", "torn-file-load", "text-roundtrip", "text-parsed-copy-edited", "dict-roundtrip", "op-constant-term",
         "op-empty-sum", "op-complex", "op-big-index", "op-unsimplified", "op-exact-compared", "expvals-complex", "frames-none",
         "frames-empty", "frames-many", "measurements-empty", "precision-none", "precision-numpy", "nmeas-without-frames",
         "via-bytes", "via-pathlike", "external-write",
@@ -702,6 +702,31 @@ class World:
                     tol = 1e-8 * (1 + len(spec["terms"])) + 1e-13 * mags.get(key, 0.0)
                     if not abs(x - y) <= tol:
                         ctx.fail("wrong-data", "text:matrix", f"parsing {text!r} gives coefficient {y!r} for {sorted(key)}, expected {x!r}")
+            # the parsed operator is the client's own object: it re-weights it in place (unit conversion), then prints and
+            # parses the ORIGINAL again - that round trip must not have been affected by what was done to the first copy
+            if a.get("reuse", ctx.rng(step).random() < 0.5):
+                try:
+                    for t in ([parsed] if spec["kind"] == "term" else list(parsed.terms)):
+                        t.coefficient = t.coefficient * 27.2114 + 1
+                    if spec["kind"] != "term" and isinstance(parsed.terms, list):
+                        parsed.terms.reverse()
+                except Exception:  # noqa: BLE001 - how the client may edit its copy is not the point
+                    pass
+                ctx.probe("text-parsed-copy-edited")
+                ok, text2 = call(str, obj)
+                ok2, parsed2 = call(parse, text2) if ok else (False, text2)
+                if not ok or not ok2 or text2 != text:
+                    ctx.fail("wrong-data", "text:after-copy-edited", f"after the client edited the operator parsed from {text!r}, printing / parsing the "
+                                                                     f"original again gave {text2!r} / {parsed2!r}")
+                with judge(ctx, "compare-exception"):
+                    got2, _ = term_map(lib_terms(parsed2))
+                    for key in set(want) | set(got2):
+                        x, y = want.get(key, 0), got2.get(key, 0)
+                        tol = 1e-8 * (1 + len(spec["terms"])) + 1e-13 * mags.get(key, 0.0)
+                        if not abs(x - y) <= tol:
+                            ctx.fail("wrong-data", "text:matrix:after-copy-edited",
+                                     f"parsing {text!r} a second time, after the client had re-weighted the first parsed copy in place, gives "
+                                     f"coefficient {y!r} for {sorted(key)}, expected {x!r}")
             ctx.nontrivial = True
             ctx.log("text_roundtrip", "ok", text=text[:80])
             return
